@@ -1051,6 +1051,9 @@ def run_reweight(case, ctx):
     ctx.nontrivial(ws is not None and n >= 3)
 
 
+# libFuzzer executions per shard and @given test of the coverage-guided extra of the thorough tier (vp/fuzz.py)
+FUZZ = 2000
+
 TESTS = [
     Test('defs', run_defs, strategy=lambda tier: defs_cases(), examples={'quick': 4000, 'thorough': 150000}),
     Test('shift', run_shift, strategy=lambda tier: shift_cases(), examples={'quick': 4000, 'thorough': 150000}),
